@@ -347,6 +347,21 @@ theorem extSort_combine_eq_spec {κ : Type} [DecidableEq κ] {lt : α → α →
     exact (hp.map _).sum_nat
   exact Canon.unique C (extSort_canon C pick blocks (Or.inr hb) plan h1) hcanon (Perm.refl _)
 
+/-- the counting combiner satisfies `Counting` under every order that tells records apart exactly
+by their key words -/
+theorem counting_of_keyTotal {lt : Rec → Rec → Bool} (sw : StrictWeak lt)
+    (hk : ∀ a b : Rec, (lt a b = false ∧ lt b a = false) ↔ a.key = b.key) :
+    Counting lt Rec.key Rec.payload combineCounts where
+  sw := sw
+  keyEq := hk
+  inj := fun a b h1 h2 => by cases a; cases b; simp_all
+  add := fun a b c h => by
+    unfold combineCounts at h
+    by_cases hab : a.key = b.key
+    · simp only [hab, ↓reduceIte, Option.some.injEq] at h; subst h; simp [hab]
+    · simp [hab] at h
+  complete := fun a b h => by simp [combineCounts, h]
+
 /-- `CombineCounts` under `SuffixOrder` (the production pairing) satisfies `Counting` -/
 theorem counting_suffix : Counting suffixLt Rec.key Rec.payload combineCounts where
   sw := lexLt_strictWeak.comap _
